@@ -209,6 +209,7 @@ func generateWrappers(
 			// for thread safety, this is not built outside WrapWrapper
 			inner := func(i []reflect.Value) []reflect.Value {
 				common := func(v valueCollection) []reflect.Value {
+					verifYield("inner-call")
 					outMap(v, i)
 					next(v)
 					r := retMap(v)
